@@ -242,3 +242,57 @@ package dns
 //@   loop 1 invariant 0 <= i && i % 4 == 0 && len(b) % 4 == 0
 //@ func (*SVCBIPv6Hint).unpack
 //@   loop 1 invariant 0 <= i && i % 16 == 0 && len(b) % 16 == 0
+
+// ---- packers of fixed-width fields --------------------------------------------------------------------------
+// Each writes exactly its big-endian octets at [off, off+w) and nothing else, or fails with off1 == len(msg).
+
+//@ func packUint8 [C01 C08]
+//@   requires 0 <= off
+//@   ensures ok:    err == nil ==> off1 == off + 1 && off1 <= len(msg) && msg[off] == i
+//@   ensures fail:  err != nil ==> off1 == len(msg)
+//@   ensures room:  off + 1 <= len(msg) ==> err == nil
+//@   ensures frame: forall k in 0..len(msg) :: (k < off || k >= off + 1) ==> msg[k] == old(msg[k])
+//@   modifies A.uint8.v
+
+//@ func packUint16 [C01 C08]
+//@   requires 0 <= off
+//@   ensures ok:    err == nil ==> off1 == off + 2 && off1 <= len(msg) && msg[off] == i / 256 && msg[off+1] == i % 256
+//@   ensures fail:  err != nil ==> off1 == len(msg)
+//@   ensures room:  off + 2 <= len(msg) ==> err == nil
+//@   ensures frame: forall k in 0..len(msg) :: (k < off || k >= off + 2) ==> msg[k] == old(msg[k])
+//@   modifies A.uint8.v
+
+//@ func packUint32 [C01 C08]
+//@   requires 0 <= off
+//@   ensures ok:    err == nil ==> off1 == off + 4 && off1 <= len(msg) && msg[off] == i / 16777216 && msg[off+1] == (i / 65536) % 256 && msg[off+2] == (i / 256) % 256 && msg[off+3] == i % 256
+//@   ensures fail:  err != nil ==> off1 == len(msg)
+//@   ensures room:  off + 4 <= len(msg) ==> err == nil
+//@   ensures frame: forall k in 0..len(msg) :: (k < off || k >= off + 4) ==> msg[k] == old(msg[k])
+//@   modifies A.uint8.v
+
+//@ func packUint48 [C01 C08]
+//@   requires 0 <= off
+//@   ensures ok:    err == nil ==> off1 == off + 6 && off1 <= len(msg) && msg[off] == (i / 1099511627776) % 256 && msg[off+1] == (i / 4294967296) % 256 && msg[off+2] == (i / 16777216) % 256 && msg[off+3] == (i / 65536) % 256 && msg[off+4] == (i / 256) % 256 && msg[off+5] == i % 256
+//@   ensures fail:  err != nil ==> off1 == len(msg)
+//@   ensures room:  off + 6 <= len(msg) ==> err == nil
+//@   ensures frame: forall k in 0..len(msg) :: (k < off || k >= off + 6) ==> msg[k] == old(msg[k])
+//@   modifies A.uint8.v
+
+//@ func packUint64 [C01 C08]
+//@   requires 0 <= off
+//@   ensures ok:    err == nil ==> off1 == off + 8 && off1 <= len(msg)
+//@   ensures fail:  err != nil ==> off1 == len(msg)
+//@   ensures room:  off + 8 <= len(msg) ==> err == nil
+//@   ensures frame: forall k in 0..len(msg) :: (k < off || k >= off + 8) ==> msg[k] == old(msg[k])
+//@   modifies A.uint8.v
+
+//@ func fromBase64 [C01 C02 C08]
+//@   ensures err == nil ==> len(buf) <= (len(s) / 4) * 3 + 3
+//@ func fromBase32 [C01 C02 C08]
+
+//@ func packStringBase64 [C01 C08]
+//@   requires 0 <= off
+//@   ensures ok:    ret1 == nil ==> off <= ret0 && ret0 <= len(msg)
+//@   ensures fail:  ret1 != nil ==> ret0 == len(msg)
+//@   ensures frame: forall k in 0..off :: msg[k] == old(msg[k])
+//@   modifies A.uint8.v
